@@ -85,6 +85,9 @@ TrDump == IsEvent("dump") /\ UNCHANGED <<iter, stop, cfgv>> /\ DumpOK(ev)
 TrRewrite ==
   /\ IsEvent("rewrite") /\ UNCHANGED <<iter, stop, cfgv>>
   /\ Check(ev.ret \/ ~ev.fp_changed, "C15", "apply_rewrites returned false although the observable fingerprint changed")
+  \* C04 (Runner.tla: Apply asserts l.sigma = r.sigma for EVERY match sigma of EVERY rule in the state before the call):
+  \* the recorder matched all rules in the pre-state; afterwards every right side is represented and equal
+  /\ Check(~ev.in_scope \/ ev.unfired = 0, "C04", "an instance of a rule's left side that was matched before apply_rewrites is not rewritten by the call")
 
 (* one iteration of Runner::run / run_eqsat.  ret (what apply_rewrites returned) is not
    logged: the specification may choose it, but fp_changed => ret *)
